@@ -39,6 +39,7 @@ def draw_ord_fields(rng, td, mode, explicit_rank_p=0.5):
     """Abstract ignore/method/rank requests + rendering, shared with C04."""
     total = mode in ("ord", "both")
     carriers = {"ord": ["Ord"], "partialord": ["PartialOrd"], "both": ["Ord", "PartialOrd"]}[mode]
+    all_method = rng.random() < 0.08        # no field of any variant compared by the field type's own comparison
     for v in td.variants:
         n = len(v.fields)
         style = rng.random()
@@ -55,6 +56,8 @@ def draw_ord_fields(rng, td, mode, explicit_rank_p=0.5):
         reqs = []
         for idx, f in enumerate(v.fields):
             r = rng.random()
+            if all_method:
+                r = 0.3 if f.ty in gen.METHOD_LEAVES else 0.1       # custom method where there is one, ignored otherwise
             req = {"ignore": r < 0.25, "method": None, "rank": None}
             needs = "Ord" if total else "PartialOrd"
             if 0.25 <= r < 0.5 and f.ty in gen.METHOD_LEAVES:
